@@ -114,6 +114,11 @@ pub fn plan_transport(rng: &mut Rng, plan: &mut Plan, sim_only: bool) {
     if t == T_FROM_PATH && rng.chance(1, 2) {
         plan.set("decoy", 1 + rng.below(len.max(1)) as i64);
     }
+    if t == T_FROM_PATH && rng.chance(1, 2) {
+        // what the file is called and what lies next to it: other extensions, no extension, the osu! naming convention
+        // inside a beatmap folder with a storyboard and another difficulty as neighbours
+        plan.set("fname", 1 + rng.below(7) as i64);
+    }
     if t == T_BUFREADER {
         let cap = if rng.chance(3, 5) { 1 + rng.below(16) } else { rng.small(8192) };
         plan.set("cap", cap as i64);
@@ -292,8 +297,7 @@ fn decode_via_inner(plan: &Plan, dec: Dec, st: &mut Stats) -> Via {
         match r {
             Ok(f) => (Ok(f), false),
             Err(e) => {
-                let inj = e.get_ref().map_or(false, |i| i.is::<crate::simio::Injected>());
-                (Err(e.kind()), inj)
+                (Err(e.kind()), crate::simio::carries_injected(&e))
             }
         }
     };
@@ -325,7 +329,37 @@ fn decode_via_inner(plan: &Plan, dec: Dec, st: &mut Stats) -> Via {
         T_FROM_PATH => {
             let dir = tmp_dir();
             let _ = std::fs::create_dir_all(&dir);
-            let path = dir.join(format!("{:?}-{}.osu", std::thread::current().id(), plan.idx));
+            let fname = plan.get("fname");
+            let stem = format!("{:?}-{}", std::thread::current().id(), plan.idx);
+            let mut folder: Option<std::path::PathBuf> = None;
+            let path = match fname {
+                1 => dir.join(format!("{stem}.osb")),
+                2 => dir.join(format!("{stem}.OSB")),
+                3 => dir.join(format!("{stem}.txt")),
+                4 => dir.join(stem.replace(['(', ')'], "")),
+                5 => dir.join(format!("{stem} [x].osu")),
+                6 | 7 => {
+                    // a beatmap folder: "<Artist> - <Title> (<Creator>) [<Version>].osu" next to "<Artist> - <Title>
+                    // (<Creator>).osb" (a storyboard with its own background and break), another difficulty and an audio file
+                    let md = rosu_map::from_bytes::<rosu_map::section::metadata::Metadata>(data).unwrap_or_default();
+                    let clean = |s: &str, d: &str| -> String {
+                        let t: String = s.chars().filter(|c| c.is_ascii_alphanumeric() || *c == ' ').take(24).collect();
+                        let t = t.trim().to_string();
+                        if t.is_empty() { d.to_string() } else { t }
+                    };
+                    let base = format!("{} - {} ({})", clean(&md.artist, "a"), clean(&md.title, "t"), clean(&md.creator, "c"));
+                    let f = dir.join(format!("folder-{stem}"));
+                    let _ = std::fs::create_dir_all(&f);
+                    let _ = std::fs::write(f.join(format!("{base}.osb")), "[Events]\n0,0,\"neighbour-bg.png\",0,0\n2,111,222\nVideo,0,\"neighbour.mp4\"\n");
+                    let _ = std::fs::write(f.join(format!("{base} [other].osu")), "osu file format v14\n[Metadata]\nTitle:other difficulty\n[Events]\n0,0,\"other-bg.png\",0,0\n");
+                    let _ = std::fs::write(f.join("audio.mp3"), "");
+                    let p = f.join(format!("{base} [{}].osu", clean(&md.version, "v")));
+                    folder = Some(f);
+                    st.inc("realfs.beatmap-folder-with-neighbours");
+                    p
+                }
+                _ => dir.join(format!("{stem}.osu")),
+            };
             // history on the real file system: the same path first holds *other* bytes of the same length and the same
             // modification time and is decoded once; the result for the real content must not depend on that
             if !data.is_empty() && plan.get("decoy") != 0 {
@@ -355,6 +389,9 @@ fn decode_via_inner(plan: &Plan, dec: Dec, st: &mut Stats) -> Via {
                 }
             };
             let _ = std::fs::remove_file(&path);
+            if let Some(f) = folder {
+                let _ = std::fs::remove_dir_all(f);
+            }
             Via { out, rs: None, err_is_injected: false }
         }
         T_FROM_PATH_PIPE => {
